@@ -296,8 +296,32 @@ impl<'t> Parser<'t> {
     }
 
     fn push_event(&mut self, event: Event) {
+        #[cfg(feature = "oq3_verif")]
+        verif_progress_guard(&event);
         self.events.push(event);
     }
+}
+
+/// Verification hook (cargo feature `oq3_verif`, off by default): turn a grammar loop that
+/// pushes events forever without consuming a token into an immediate panic instead of
+/// unbounded allocation, so that a simulation feeding damaged files can always finish.
+#[cfg(feature = "oq3_verif")]
+fn verif_progress_guard(event: &Event) {
+    use std::cell::Cell;
+    thread_local! {
+        static SINCE_LAST_TOKEN: Cell<u32> = const { Cell::new(0) };
+    }
+    SINCE_LAST_TOKEN.with(|n| {
+        if matches!(event, Event::Token { .. }) {
+            n.set(0);
+        } else {
+            n.set(n.get() + 1);
+            if n.get() > 10_000 {
+                n.set(0);
+                panic!("oq3_verif: the parser pushed 10000 events without consuming a token");
+            }
+        }
+    });
 }
 
 /// See [`Parser::start`].
